@@ -373,6 +373,10 @@ func (a bact) text() string {
 		return fmt.Sprintf("P%dq%dd%s", a.id, a.q, hx.B01(a.dup))
 	case "rel":
 		return fmt.Sprintf("R%d", a.id)
+	case "own":
+		return fmt.Sprintf("O%d", a.q)
+	case "ack":
+		return fmt.Sprintf("A%d.%d", a.q, a.id)
 	}
 	return "X"
 }
@@ -397,6 +401,18 @@ func c10Script(cfg cfgT, acts []bact) []step {
 	steps := opening(cfg, call, false)
 	for _, a := range acts {
 		switch a.kind {
+		case "own": // the client's own publish: its packet ids are counted independently of the broker's
+			call++
+			steps = append(steps, sPub(call, a.q))
+		case "ack": // the broker's answer to an own publish: q = 4 PUBACK, 5 PUBREC, 7 PUBCOMP
+			switch a.q {
+			case 4:
+				steps = append(steps, sB(&packet.Puback{ID: packet.ID(a.id)}), sIdle())
+			case 5:
+				steps = append(steps, sB(&packet.Pubrec{ID: packet.ID(a.id)}), sIdle())
+			case 7:
+				steps = append(steps, sB(&packet.Pubcomp{ID: packet.ID(a.id)}), sIdle())
+			}
 		case "pub":
 			steps = append(steps, sB(inPub(a.id, a.q, a.dup)), sIdle())
 		case "rel":
@@ -484,6 +500,49 @@ func c10Enumerate(c *hx.Ctx) []*scenario {
 				sc := []bact{p(1, false), x, p(1, true), r(1), x, r(1)}
 				out = append(out, &scenario{name: fmt.Sprintf("seq/%s-ackfail@%d-%s", m.tag, k, c10Name(sc)),
 					failAt: map[string]int{"send": k}, steps: c10Script(m.cfg, sc)})
+			}
+		}
+	}
+	// the client's own publishes interleaved with an inbound QoS 2 handshake that uses the same packet id
+	// (the two directions count ids independently, both start at 1): every order, also across a resume
+	{
+		interleave := func(a, b []bact) [][]bact {
+			var out [][]bact
+			var rec func(i, j int, acc []bact)
+			rec = func(i, j int, acc []bact) {
+				if i == len(a) && j == len(b) {
+					out = append(out, append([]bact(nil), acc...))
+					return
+				}
+				if i < len(a) {
+					rec(i+1, j, append(acc, a[i]))
+				}
+				if j < len(b) {
+					rec(i, j+1, append(acc, b[j]))
+				}
+			}
+			rec(0, 0, nil)
+			return out
+		}
+		inbound := []bact{{kind: "pub", id: 1, q: 2}, {kind: "rel", id: 1}}
+		own1 := []bact{{kind: "own", q: 1}, {kind: "ack", id: 1, q: 4}}
+		own2 := []bact{{kind: "own", q: 2}, {kind: "ack", id: 1, q: 5}, {kind: "ack", id: 1, q: 7}}
+		x := bact{kind: "resume"}
+		var scripts [][]bact
+		scripts = append(scripts, interleave(own1, inbound)...)
+		scripts = append(scripts, interleave(own2, inbound)...)
+		for _, sc := range interleave(own1, inbound) {
+			for pos := 1; pos < len(sc); pos++ {
+				withX := append(append(append([]bact(nil), sc[:pos]...), x), sc[pos:]...)
+				scripts = append(scripts, withX)
+			}
+		}
+		for _, m := range modes {
+			for si, sc := range scripts {
+				if !c.Thorough() && m.tag != "default" && m.tag != "clean" && si%3 != 0 {
+					continue
+				}
+				out = append(out, &scenario{name: "own/" + m.tag + "-" + c10Name(sc), steps: c10Script(m.cfg, sc)})
 			}
 		}
 	}
